@@ -188,8 +188,8 @@ pub struct RunStats {
     pub media_secs: f64,
     pub trace_hash: u64,
     pub clock_jumps: (i64, i64),
-    /// when the violating case is not the generated one (fault enumeration), the exact case to replay
-    pub violating_case: Option<serde_json::Value>,
+    /// when the violating case is not the generated one (fault enumeration): (class, key, exact case to replay)
+    pub violating_cases: Vec<(String, String, serde_json::Value)>,
 }
 
 impl RunStats {
@@ -982,6 +982,61 @@ fn c12_eval(sc: &str, case: &AnyCase, st: &mut RunStats, _t: Tier) -> Vec<Violat
 
 const FK_ALL: &[&str] = &["short_write", "interrupted", "err_once", "die", "ok_zero", "die_at_byte", "dead_sink_write"];
 
+// ================================================================ C13
+
+fn c13_scen(t: Tier) -> Vec<(&'static str, u64)> {
+    vec![("enumerate", t.pick(132, 3000))]
+}
+fn c13_gen(_sc: &str, rng: &mut Rng, _t: Tier, i: u64) -> AnyCase {
+    AnyCase::Prog(crate::fault::gen_history(rng, i))
+}
+fn c13_eval(_sc: &str, case: &AnyCase, st: &mut RunStats, t: Tier) -> Vec<Violation> {
+    let case = as_prog(case);
+    let mut h = Hasher64::new();
+    h.str(&format!("{:?}", case.cfg));
+    h.u64(case.ops.len() as u64);
+    crate::fault::eval(case, st, t, h.finish())
+}
+
+const STUB_FAULT: &[&str] = &["sink (SimSink: one enumerated fault point per execution; healed after the finish attempt so that any further write would be accepted and seen)", "caller (representative histories of every layout)"];
+
+// ================================================================ C16
+
+fn c16_scen(t: Tier) -> Vec<(&'static str, u64)> {
+    vec![("boundary-progressive", t.pick(40_000, 700_000)), ("boundary-fragmented", t.pick(30_000, 500_000))]
+}
+fn c16_gen(sc: &str, rng: &mut Rng, _t: Tier, _i: u64) -> AnyCase {
+    if sc == "boundary-fragmented" {
+        AnyCase::Frag(gen::gen_frag(rng, &FragKnobs { reject_pct: 3, boundary: true, big: false, long_pct: 1 }))
+    } else {
+        AnyCase::Prog(gen::gen_boundary(rng))
+    }
+}
+fn c16_eval(sc: &str, case: &AnyCase, st: &mut RunStats, _t: Tier) -> Vec<Violation> {
+    if sc == "boundary-fragmented" {
+        return crate::frag::c16_eval_frag(as_frag(case), st);
+    }
+    let case = as_prog(case);
+    let (ex, lm) = run_and_model(case, st);
+    let mut out = oracle::panics("C16", case, &ex);
+    if let Some((_, bytes)) = oracle::complete_file(case, &ex) {
+        // addressing (stco / stsz) first, then every other numeric field
+        for mut x in oracle::c01_addressing("C16", case, &ex, &lm, bytes) {
+            x.class = x.class.replace("C16/", "C16/addressing-");
+            out.push(x);
+        }
+        if out.is_empty() {
+            out.extend(oracle::c16_numeric("C16", case, &lm, bytes));
+        }
+        st.nontrivial = Some(abstract_prog(case, &ex, st));
+        st.count("finish_ok", 1);
+    } else if ex.first_panic().is_none() {
+        st.count("finish_or_write_refused", 1);
+        st.nontrivial = Some(abstract_prog(case, &ex, st) ^ 1);
+    }
+    out
+}
+
 // ================================================================ registry
 
 macro_rules! def {
@@ -1024,6 +1079,12 @@ pub static ALL: &[CheckDef] = &[
     def!("C12", "exploration", c12_scen, c12_gen, c12_eval,
         "adversarial histories (truncations, bit flips, extremes for every integer/float argument, every object state incl. after failed finish, sink faults of every kind during finish), adversarial fragmented sequences (timescale 0, decode times at 2^31/2^32/2^63/2^64 boundaries) and every stateless public function of codec::*, validation, api value types on adversarial byte strings; every returned error is formatted with {} {:#} {:?}; oracle: no panic (hook + catch_unwind, overflow checks on), no worker death, no watchdog expiry; evaluations = ops executed; non-trivial = every run; distinct = distinct abstract trace",
         FK_ALL, STUB_PROG, false),
+    CheckDef { id: "C13", level: "fault_enumeration", scenarios: c13_scen, gen: c13_gen, eval: c13_eval,
+        rule: "for each representative history (layouts video-only / A+V x fast start on/off x metadata yes/no x 0/1/many samples pinned for the first 48, the rest drawn): one fault-free reference run, then ENUMERATION of every write call of the finish (plus one past the end) x every fault kind (ErrOnce per ErrorKind, Die, Ok(0), three short-write sizes, Interrupted bursts of 1 and 3), every byte offset of the output as death point (all offsets for files <= 4 KiB, else all write boundaries +-1 and 512 seeded offsets), and seeded short-write/Interrupted schedules with an optional fatal fault; evaluations = faulted executions; non-trivial = a fault actually fired; distinct = distinct (history, fault plan)",
+        fault_kinds: FK_ALL, real: REAL_LIB, stubbed: STUB_FAULT, assumptions: ASSUME_READER, exhaustive_quick: true, slow_ok: false },
+    def!("C16", "exploration", c16_scen, c16_gen, c16_eval,
+        "boundary-biased histories: inter-frame gaps at 2^32-2..2^32+2 ticks, totals crossing 2^32 ticks (>= 3 frames) and 2^32 ms (>= 92 frames), |pts-dts| around 2^31, parameter sets of 65533..65537 bytes, dimensions 65535/65536/2^31/2^32-1, AAC rates >= 65536, channel counts >= 256, timestamps at 2^53 ticks and beyond u64, audio gaps/totals at 2^32; fragmented: DTS gaps at 2^32, offsets at 2^31, decode times at 2^32/2^53/2^64-1e5, large parameter sets; every decoded numeric field is recomputed from the model in i128 or the producing call must have failed; non-trivial = every run that finished or was refused; distinct = distinct abstract trace",
+        &[], STUB_PROG, false),
     def!("C15", "exploration", c15_scen, c15_gen, c15_eval,
         "A/V histories with adversarial submission order (all audio last/first, alternation, bursts, equal timestamps); offsets increase within each track, and for non-reordered streams global storage order = stable merge by (tick timestamp, video first); non-trivial = finished with audio and >= 2 video samples; distinct = distinct abstract trace",
         &[], STUB_PROG, false),
